@@ -643,6 +643,14 @@ def _assume_signed_range(r, n):
         ctx().assume(z3.And(r.e >= -(1 << (n - 1)), r.e < (1 << (n - 1))))
 
 
+def _assume_kb_range(x):
+    """known-bits metadata (every set bit of x lies in x.kb, x >= 0) implies 0 <= x <= x.kb; stated as a
+    fact where a reduction `x & mask` / `x % 2^k` is dropped because of it, so that the range the
+    dropped reduction made syntactically evident stays available to the solver"""
+    if isinstance(x, SymInt) and x.kb is not None:
+        ctx().assume(z3.And(x.e >= 0, x.e <= x.kb))
+
+
 def _signed_width2(a, b):
     if not (isinstance(a, SymInt) and isinstance(b, SymInt)):
         return None
@@ -992,6 +1000,16 @@ class SymInt:
         if not isinstance(o, (int, SymInt, SymBool)):
             return NotImplemented
         d = self._divcheck(o)
+        if isinstance(d, int) and d > 0:
+            # 0 <= self < d already known from the proxy's metadata (as `self & (d - 1)` does): the value itself
+            w = getattr(self, "width", None)
+            if w is not None and (1 << w) <= d:
+                if not z3.is_const(self.e):
+                    ctx().assume(z3.And(self.e >= 0, self.e < (1 << w)))   # what `width` records (see width_of / mkw)
+                return self
+            if self.kb is not None and self.kb < d:
+                _assume_kb_range(self)
+                return self
         r = mk(mod_z3(self.e, d))
         if isinstance(r, SymInt) and isinstance(d, int) and d > 0:
             r.kb = (1 << max((d - 1).bit_length(), 1)) - 1
@@ -1111,6 +1129,9 @@ class SymInt:
                     co = co & self.kb
                 return from_parts(parts_and(pa, co & self.kb))
             if co >= 0 and self.kb is not None:
+                if co & self.kb == self.kb:
+                    _assume_kb_range(self)
+                    return self           # every possibly-set bit of self (kb) is kept by the mask
                 co = co & self.kb
             r = mk(and_const_z3(self.e, co))
             if isinstance(r, SymInt) and co >= 0:
